@@ -2,12 +2,16 @@
 mod exec;
 mod history;
 mod props;
+mod sim;
 mod universe;
 
 fn main() {
     let args = mcx::parse_args();
+    mcx::quiet_panics();
     match args.prop.as_str() {
         p @ ("C01" | "C02" | "C03" | "C09") => props::graph::run(&args, p),
+        "C05" => props::finalize::run(&args),
+        "C06" => props::reject::run(&args),
         p => mcx::machinery_error(&format!("rt-graph does not serve {p}")),
     }
 }
